@@ -33,9 +33,10 @@ var contEntries = []contEntry{
 	{"cr3split", "DecodeCR3", 0},
 	{"heif", "Decode", 0}, {"heif", "DecodeHeif", 0},
 	{"cr3", "BmffReader", 0},
+	{"cr2", "Decode", 0}, {"cr2", "DecodeCR2", 0}, {"cr2", "Parse", 0},
 }
 
-var contType = map[string]string{"tiff": "TIFF", "jpeg": "JPEG", "png": "PNG", "cr3": "CR3", "cr3split": "CR3", "heif": "HEIF", "avif": "AVIF"}
+var contType = map[string]string{"tiff": "TIFF", "jpeg": "JPEG", "png": "PNG", "cr3": "CR3", "cr3split": "CR3", "heif": "HEIF", "avif": "AVIF", "cr2": "CR2"}
 
 // splitCR3 builds the CMT1/CMT2/CMT4 blocks of a case: IFD0 fields, Exif fields, GPS fields, each its own TIFF block.
 func splitCR3(it *exifItem, bo string, ifdAt int) gen.CR3Parts {
@@ -70,6 +71,14 @@ func wrapContainer(cont string, it *exifItem, bo string, rng *rand.Rand, lvl int
 		return gen.WrapHEIF(t, "heic", rng, lvl)
 	case "avif":
 		return gen.WrapHEIF(t, "avif", rng, lvl)
+	case "cr2":
+		// Canon CR2: a TIFF file whose first directory starts at 16, with "CR" 2.0 and the RAW directory offset in between
+		out := append([]byte{}, t...)
+		copy(out[8:16], "CR\x02\x00\x00\x00\x00\x00")
+		for len(out) < it.C.Ifd0At+32 {
+			out = append(out, 0xEE)
+		}
+		return append(out, make([]byte, 16*lvl)...)
 	}
 	// bare TIFF file: the header search needs 32 bytes (C12's domain); trailing image data
 	out := append([]byte{}, t...)
@@ -120,6 +129,9 @@ func runContainers(r *core.Run, prop string) {
 		for _, bo := range []string{"LE", "BE"} {
 			for _, ce := range contEntries {
 				if ce.Cont == "cr3split" && it.C.Bulk > 0 {
+					continue
+				}
+				if ce.Cont == "cr2" && it.C.Ifd0At != 16 {
 					continue
 				}
 				ce.Type = types[contType[ce.Cont]]
